@@ -56,6 +56,13 @@ pub fn run_c13<A: Cx>(d: &mut Drv<A>, scale: usize) {
             }
         }
     }
+    // wrong lengths that alias 3 modulo a power of two must not yield an amino acid either
+    let long = d.rand_syms(1100);
+    d.emit(json!({"op": "fromsyms", "dst": 3, "c": "dna", "via": "iter", "syms": long}));
+    for n in (6..=40).chain([35, 67, 131, 259, 515, 1027]) {
+        let a = d.rng.below(30);
+        d.emit(json!({"op": "toamino", "src": sl(3, a, a + n)}));
+    }
 }
 
 pub fn run_c14<A: Cx>(d: &mut Drv<A>, offsets: &[usize]) {
@@ -80,6 +87,16 @@ pub fn run_c14<A: Cx>(d: &mut Drv<A>, offsets: &[usize]) {
                 }
             }
         }
+    }
+    // "codons of any other length are reported invalid": every length up to 140 and lengths that
+    // alias 3 modulo a power of two (a truncated or wrapped length test would let them through)
+    let mut invalid: Vec<usize> = (0..=140).filter(|&n| n != 3).collect();
+    invalid.extend([195, 259, 515, 1027, 2051]);
+    let long = d.rand_syms(2060);
+    d.emit(json!({"op": "fromsyms", "dst": 2, "c": "iupac", "via": "iter", "syms": long}));
+    for n in invalid {
+        let a = d.rng.below(9);
+        d.emit(json!({"op": "trytoamino", "src": sl(2, a, a + n)}));
     }
     // reverse translation of all 21 residues
     let aminos: Vec<u8> = {
